@@ -1,5 +1,6 @@
 /-
-Helper lemmas for C18: simultaneous replacement by rational literals, `PoolSum.cleanup`.
+Helper lemmas for C18: simultaneous replacement (`xreplace` = simultaneous update of the
+environment, for nested pool sums with symbolic pools), `PoolSum.cleanup`.
 -/
 import Ampverif.Lemmas.C18Sum
 
@@ -72,7 +73,7 @@ theorem filter_filter_names (c : List (Sym × Q)) (i : Sym) (rest : List Sym) :
   funext p
   by_cases h : p.1 = i <;> simp [h, List.contains_cons, Bool.and_comm]
 
-theorem evalSum_qEnv (ixs : List Binder) :
+theorem evalSum_qEnv (ixs : List QBinder) :
     ∀ (c : List (Sym × Q)) (ρ : Env) (k : Env → Q),
       evalSum ixs (qEnv c ρ) k
         = evalSum ixs ρ (fun ρ' => k (qEnv (c.filter (fun p => !(names ixs).contains p.1)) ρ')) := by
@@ -87,35 +88,141 @@ theorem evalSum_qEnv (ixs : List Binder) :
     intro v _
     rw [upd_qEnv, ih, filter_filter_names, names_cons]
 
+/-- the values of a replacement map in an environment. -/
+def evalPairs (I : Interp) (σ : List (Sym × Expr)) (ρ : Env) : List (Sym × Q) :=
+  σ.map (fun p => (p.1, eval I p.2 ρ))
+
+theorem lookupQ_evalPairs (I : Interp) (σ : List (Sym × Expr)) (ρ : Env) (s : Sym) :
+    lookupQ (evalPairs I σ ρ) s = (lookup σ s).map (fun a => eval I a ρ) := by
+  induction σ with
+  | nil => simp [evalPairs, lookup, lookupQ]
+  | cons p σ ih =>
+    obtain ⟨k, a⟩ := p
+    have ih' : lookupQ (List.map (fun p => (p.1, eval I p.2 ρ)) σ) s = (lookup σ s).map (fun a => eval I a ρ) := by
+      simpa [evalPairs] using ih
+    by_cases h : s = k
+    · simp [evalPairs, lookup, lookupQ, h]
+    · simp [evalPairs, lookup, lookupQ, h, ih']
+
+theorem evalPairs_filter (I : Interp) (σ : List (Sym × Expr)) (ρ : Env) (f : Sym → Bool) :
+    (evalPairs I σ ρ).filter (fun p => f p.1) = evalPairs I (σ.filter (fun p => f p.1)) ρ := by
+  induction σ with
+  | nil => simp [evalPairs]
+  | cons p σ ih =>
+    have ih' : List.filter (fun p => f p.1) (List.map (fun p => (p.1, eval I p.2 ρ)) σ)
+        = List.map (fun p => (p.1, eval I p.2 ρ)) (List.filter (fun p => f p.1) σ) := by
+      simpa [evalPairs] using ih
+    by_cases h : f p.1 = true <;> simp [evalPairs, List.filter_cons, h, ih']
+
+theorem evalPairs_congr (I : Interp) (σ : List (Sym × Expr)) (ρ ρ' : Env)
+    (h : ∀ p ∈ σ, eval I p.2 ρ' = eval I p.2 ρ) : evalPairs I σ ρ' = evalPairs I σ ρ := by
+  unfold evalPairs
+  apply List.map_congr_left
+  intro p hp
+  rw [h p hp]
+
+theorem evalPairs_reverse (I : Interp) (σ : List (Sym × Expr)) (ρ : Env) :
+    (evalPairs I σ ρ).reverse = evalPairs I σ.reverse ρ := by
+  simp [evalPairs, List.map_reverse]
+
+theorem qEnv_filter_of_not_mem (c : List (Sym × Q)) (ρ : Env) (ns : List Sym) (s : Sym) (h : s ∉ ns) :
+    qEnv (c.filter (fun p => !ns.contains p.1)) ρ s = qEnv c ρ s := by
+  have := lookupQ_filter c (fun k => !ns.contains k) s
+  simp only [qEnv, this]
+  simp [h]
+
 mutual
-theorem eval_xreplace_lit (I : Interp) (v : Variant) (hv : v.sound) :
-    ∀ (e : Expr) (c : List (Sym × Q)) (ρ : Env),
-      eval I (xreplace v e (litPairs c)) ρ = eval I e (qEnv c ρ)
-  | .sym s, c, ρ => by
-      simp only [xreplace, lookup_litPairs, eval, qEnv]
-      cases lookupQ c s <;> simp [eval]
-  | .rat r, c, ρ => by simp [xreplace, eval]
-  | .add es, c, ρ => by simp [xreplace, eval, evalList_xreplace_lit I v hv es c ρ]
-  | .mul es, c, ρ => by simp [xreplace, eval, evalList_xreplace_lit I v hv es c ρ]
-  | .pow b n, c, ρ => by simp [xreplace, eval, eval_xreplace_lit I v hv b c ρ]
-  | .app f es, c, ρ => by simp [xreplace, eval, evalList_xreplace_lit I v hv es c ρ]
-  | .node cl es t, c, ρ => by
+/-- `xreplace` is the simultaneous update of the environment by the values of the map — for every
+term (nested pool sums, symbolic pools), provided the inserted terms mention no bound symbol. -/
+theorem eval_xreplace (I : Interp) (v : Variant) (hv : v.sound) :
+    ∀ (e : Expr) (σ : List (Sym × Expr)) (ρ : Env), wfSums e = true →
+      (∀ p ∈ σ, wfSums p.2 = true ∧ ∀ s ∈ syms p.2, s ∉ bound e) →
+      eval I (xreplace v e σ) ρ = eval I e (qEnv (evalPairs I σ ρ) ρ)
+  | .sym s, σ, ρ, _, _ => by
+      simp only [xreplace, eval, qEnv, lookupQ_evalPairs]
+      cases lookup σ s <;> simp [eval]
+  | .rat r, σ, ρ, _, _ => by simp [xreplace, eval]
+  | .add es, σ, ρ, hw, hc => by
+      simp only [xreplace, eval]
+      rw [evalList_xreplace I v hv es σ ρ (by simpa [wfSums] using hw) (by simpa [bound] using hc)]
+  | .mul es, σ, ρ, hw, hc => by
+      simp only [xreplace, eval]
+      rw [evalList_xreplace I v hv es σ ρ (by simpa [wfSums] using hw) (by simpa [bound] using hc)]
+  | .pow b n, σ, ρ, hw, hc => by
+      simp only [xreplace, eval]
+      rw [eval_xreplace I v hv b σ ρ (by simpa [wfSums] using hw) (by simpa [bound] using hc)]
+  | .app f es, σ, ρ, hw, hc => by
+      simp only [xreplace, eval]
+      rw [evalList_xreplace I v hv es σ ρ (by simpa [wfSums] using hw) (by simpa [bound] using hc)]
+  | .node cl es t, σ, ρ, hw, hc => by
       have hr : v.getArgsRecursive = false := hv.1
-      simp [xreplace, eval, hr, evalList_xreplace_lit I v hv es c ρ]
-  | .psum b ixs, c, ρ => by
+      simp only [xreplace, hr, Bool.false_and, Bool.false_eq_true, if_false, eval]
+      rw [evalList_xreplace I v hv es σ ρ (by simpa [wfSums] using hw) (by simpa [bound] using hc)]
+  | .psum b ixs, σ, ρ, hw, hc => by
       have hp : v.poolSumProtectsBound = true := hv.2
+      obtain ⟨_, _, hnp, hown, hwb⟩ := wfSums_psum hw
+      have hc' : ∀ p ∈ σ, wfSums p.2 = true ∧ ∀ s ∈ syms p.2, s ∉ names ixs ∧ s ∉ bound b := by
+        intro p hp'
+        refine ⟨(hc p hp').1, ?_⟩
+        intro s hs
+        have := (hc p hp').2 s hs
+        simp only [bound, List.mem_append, not_or] at this
+        exact ⟨this.1.1, this.2⟩
+      have hsub : ∀ p ∈ σ.filter (fun p => !(names ixs).contains p.1), p ∈ σ :=
+        fun p hp' => (List.mem_filter.mp hp').1
       simp only [xreplace, hp, if_true, eval]
-      rw [evalSum_qEnv, litPairs_filter c (fun s => !(names ixs).contains s)]
-      apply evalSum_congr
-      intro ρ'
-      exact eval_xreplace_lit I v hv b _ ρ'
-  | .idx f es, c, ρ => by simp [xreplace, eval, evalList_xreplace_lit I v hv es c ρ]
-theorem evalList_xreplace_lit (I : Interp) (v : Variant) (hv : v.sound) :
-    ∀ (es : List Expr) (c : List (Sym × Q)) (ρ : Env),
-      evalList I (xreplaceList v es (litPairs c)) ρ = evalList I es (qEnv c ρ)
-  | [], c, ρ => by simp [xreplaceList, evalList]
-  | e :: es, c, ρ => by
-      simp [xreplaceList, evalList, eval_xreplace_lit I v hv e c ρ, evalList_xreplace_lit I v hv es c ρ]
+      have hpools : evalBinders I (xreplaceBinders v ixs (σ.filter (fun p => !(names ixs).contains p.1))) ρ
+          = evalBinders I ixs (qEnv (evalPairs I σ ρ) ρ) := by
+        rw [evalBinders_xreplace I v hv ixs _ ρ hnp (fun p hp' => (hc' p (hsub p hp')).1)]
+        apply evalBinders_agree I ixs _ _ hnp
+        intro s hs
+        have hsn : s ∉ names ixs := (hown s (mem_symsBinders_of_mem_freeBinders ixs s hs)).1
+        rw [← evalPairs_filter I σ ρ (fun k => !(names ixs).contains k)]
+        exact qEnv_filter_of_not_mem _ ρ (names ixs) s hsn
+      rw [hpools, evalSum_qEnv, names_evalBinders]
+      apply evalSum_congr_agree
+      intro ρ' hρ'
+      rw [eval_xreplace I v hv b _ ρ' hwb (fun p hp' =>
+        ⟨(hc' p (hsub p hp')).1, fun s hs => ((hc' p (hsub p hp')).2 s hs).2⟩)]
+      rw [evalPairs_filter I σ ρ (fun k => !(names ixs).contains k)]
+      rw [evalPairs_congr I _ ρ ρ']
+      intro p hp'
+      have hps := hc' p (hsub p hp')
+      apply eval_agree I p.2 ρ' ρ hps.1
+      intro s hs
+      apply hρ' s
+      rw [names_evalBinders]
+      exact (hps.2 s (mem_syms_of_mem_free p.2 s hs)).1
+  | .idx f es, σ, ρ, hw, hc => by
+      simp only [xreplace, eval]
+      rw [evalList_xreplace I v hv es σ ρ (by simpa [wfSums] using hw) (by simpa [bound] using hc)]
+theorem evalList_xreplace (I : Interp) (v : Variant) (hv : v.sound) :
+    ∀ (es : List Expr) (σ : List (Sym × Expr)) (ρ : Env), wfSumsList es = true →
+      (∀ p ∈ σ, wfSums p.2 = true ∧ ∀ s ∈ syms p.2, s ∉ boundList es) →
+      evalList I (xreplaceList v es σ) ρ = evalList I es (qEnv (evalPairs I σ ρ) ρ)
+  | [], σ, ρ, _, _ => by simp [xreplaceList, evalList]
+  | e :: es, σ, ρ, hw, hc => by
+      have hw' : wfSums e = true ∧ wfSumsList es = true := by simpa [wfSumsList] using hw
+      have hc' : ∀ p ∈ σ, wfSums p.2 = true ∧ ∀ s ∈ syms p.2, s ∉ bound e ∧ s ∉ boundList es := by
+        intro p hp
+        refine ⟨(hc p hp).1, ?_⟩
+        intro s hs
+        have := (hc p hp).2 s hs
+        simpa [boundList, not_or] using this
+      simp only [xreplaceList, evalList]
+      rw [eval_xreplace I v hv e σ ρ hw'.1 (fun p hp => ⟨(hc' p hp).1, fun s hs => ((hc' p hp).2 s hs).1⟩),
+          evalList_xreplace I v hv es σ ρ hw'.2 (fun p hp => ⟨(hc' p hp).1, fun s hs => ((hc' p hp).2 s hs).2⟩)]
+theorem evalBinders_xreplace (I : Interp) (v : Variant) (hv : v.sound) :
+    ∀ (ixs : List (Sym × List Expr)) (σ : List (Sym × Expr)) (ρ : Env), noPsumBinders ixs = true →
+      (∀ p ∈ σ, wfSums p.2 = true) →
+      evalBinders I (xreplaceBinders v ixs σ) ρ = evalBinders I ixs (qEnv (evalPairs I σ ρ) ρ)
+  | [], σ, ρ, _, _ => by simp [xreplaceBinders, evalBinders]
+  | (i, pool) :: rest, σ, ρ, hn, hσ => by
+      have hn' : noPsumList pool = true ∧ noPsumBinders rest = true := by simpa [noPsumBinders] using hn
+      simp only [xreplaceBinders, evalBinders]
+      rw [evalList_xreplace I v hv pool σ ρ (wfSumsList_of_noPsum pool hn'.1)
+            (fun p hp => ⟨hσ p hp, by rw [boundList_of_noPsum pool hn'.1]; simp⟩),
+          evalBinders_xreplace I v hv rest σ ρ hn'.2 hσ]
 end
 
 theorem lookupQ_append_single (c : List (Sym × Q)) (i : Sym) (q : Q) (s : Sym) :
@@ -146,7 +253,7 @@ theorem sum_map_const {α : Type} (l : List α) (c : Q) : (l.map (fun _ => c)).s
   | nil => simp
   | cons a l ih => simp [ih]; ring
 
-theorem names_filter_subset (ixs : List Binder) (f : Binder → Bool) (i : Sym)
+theorem names_filter_subset {α : Type} (ixs : List (Sym × α)) (f : Sym × α → Bool) (i : Sym)
     (h : i ∉ names ixs) : i ∉ names (ixs.filter f) := by
   intro hm
   apply h
@@ -154,14 +261,14 @@ theorem names_filter_subset (ixs : List Binder) (f : Binder → Bool) (i : Sym)
   obtain ⟨p, hp, rfl⟩ := hm
   exact ⟨p, (List.mem_filter.mp hp).1, rfl⟩
 
-theorem not_mem_names_kept (fb : List Sym) (ixs : List Binder) (i : Sym) (h : i ∉ names ixs) :
+theorem not_mem_names_kept {α : Type} (fb : List Sym) (ixs : List (Sym × List α)) (i : Sym) (h : i ∉ names ixs) :
     i ∉ names (cleanupKept fb ixs) := by
   unfold cleanupKept cleanupUsed
   exact names_filter_subset _ _ i (names_filter_subset _ _ i h)
 
 /-- the value of a pool sum, expressed through what `cleanup` keeps. -/
 theorem evalSum_cleanup (fb : List Sym) (k : Env → Q)
-    (hk : ∀ ρ1 ρ2 : Env, (∀ s ∈ fb, ρ1 s = ρ2 s) → k ρ1 = k ρ2) (ixs : List Binder) :
+    (hk : ∀ ρ1 ρ2 : Env, (∀ s ∈ fb, ρ1 s = ρ2 s) → k ρ1 = k ρ2) (ixs : List QBinder) :
     ∀ ρ : Env, (names ixs).Nodup → (∀ p ∈ ixs, p.2 ≠ []) →
       evalSum ixs ρ k
         = (cleanupMult fb ixs : Q) *
@@ -233,7 +340,7 @@ theorem evalSum_cleanup (fb : List Sym) (k : Env → Q)
       push_cast
       ring
 
-theorem cleanupMult_eq_one (fb : List Sym) (ixs : List Binder)
+theorem cleanupMult_eq_one {α : Type} (fb : List Sym) (ixs : List (Sym × List α))
     (h : ∀ p ∈ ixs, p.1 ∉ fb → p.2.length = 1) : cleanupMult fb ixs = 1 := by
   induction ixs with
   | nil => simp [cleanupMult]
@@ -244,5 +351,103 @@ theorem cleanupMult_eq_one (fb : List Sym) (ixs : List Binder)
     · simp [List.filter_cons, hu] at ihr ⊢; exact ihr
     · have := h p List.mem_cons_self hu
       simp [List.filter_cons, hu, this] at ihr ⊢; exact ihr
+
+/-! ### `cleanup` looks at the index symbols and the pool SIZES only: it commutes with evaluating the pools -/
+
+theorem evalList_length (I : Interp) (es : List Expr) (ρ : Env) : (evalList I es ρ).length = es.length := by
+  rw [evalList_eq_map]; simp
+
+theorem cleanupMult_evalBinders (I : Interp) (fb : List Sym) (ρ : Env) :
+    ∀ ixs : List Binder, cleanupMult fb (evalBinders I ixs ρ) = cleanupMult fb ixs
+  | [] => by simp [evalBinders, cleanupMult]
+  | (i, pool) :: rest => by
+      have ih := cleanupMult_evalBinders I fb ρ rest
+      unfold cleanupMult at ih ⊢
+      simp only [evalBinders]
+      by_cases hu : i ∈ fb
+      · simp only [List.filter_cons, hu, List.contains_eq_mem, decide_true, Bool.not_true,
+          Bool.false_eq_true, if_false]
+        simpa using ih
+      · simp only [List.filter_cons, hu, List.contains_eq_mem, decide_false, Bool.not_false,
+          if_true, List.map_cons, List.foldr_cons, evalList_length]
+        simp only [List.contains_eq_mem] at ih
+        rw [ih]
+
+theorem cleanupKept_evalBinders (I : Interp) (fb : List Sym) (ρ : Env) :
+    ∀ ixs : List Binder, cleanupKept fb (evalBinders I ixs ρ) = evalBinders I (cleanupKept fb ixs) ρ
+  | [] => by simp [evalBinders, cleanupKept, cleanupUsed]
+  | (i, pool) :: rest => by
+      have ih := cleanupKept_evalBinders I fb ρ rest
+      unfold cleanupKept cleanupUsed at ih ⊢
+      simp only [evalBinders]
+      by_cases hu : fb.contains i = true
+      · by_cases hl : (pool.length != 0 && pool.length != 1) = true
+        · simp only [List.filter_cons, hu, if_true, evalList_length, hl, evalBinders]
+          rw [ih]
+        · simp only [List.filter_cons, hu, if_true, evalList_length, hl, Bool.false_eq_true, if_false]
+          exact ih
+      · simp only [List.filter_cons, hu, Bool.false_eq_true, if_false]
+        exact ih
+
+theorem cleanupSingles_evalBinders (I : Interp) (fb : List Sym) (ρ : Env) :
+    ∀ ixs : List Binder, cleanupSingles fb (evalBinders I ixs ρ) = evalPairs I (cleanupSingles fb ixs) ρ
+  | [] => by simp [evalBinders, cleanupSingles, cleanupUsed, evalPairs]
+  | (i, pool) :: rest => by
+      have ih := cleanupSingles_evalBinders I fb ρ rest
+      unfold cleanupSingles cleanupUsed evalPairs at ih ⊢
+      simp only [evalBinders]
+      by_cases hu : fb.contains i = true
+      · simp only [List.filter_cons, hu, if_true, List.filterMap_cons]
+        match pool with
+        | [] => simpa [evalList] using ih
+        | [a] => simpa [evalList] using ih
+        | a :: a' :: tl => simpa [evalList] using ih
+      · simp only [List.filter_cons, hu, Bool.false_eq_true, if_false]
+        exact ih
+
+theorem evalBinders_nonempty (I : Interp) (ρ : Env) :
+    ∀ ixs : List Binder, (∀ p ∈ ixs, p.2 ≠ []) → ∀ p ∈ evalBinders I ixs ρ, p.2 ≠ []
+  | [], _, p, hp => by simp [evalBinders] at hp
+  | (i, pool) :: rest, h, p, hp => by
+      simp only [evalBinders, List.mem_cons] at hp
+      rcases hp with hp | hp
+      · subst hp
+        have := h (i, pool) List.mem_cons_self
+        cases pool with
+        | nil => exact absurd rfl this
+        | cons e es => simp [evalList]
+      · exact evalBinders_nonempty I ρ rest (fun q hq => h q (List.mem_cons_of_mem _ hq)) p hp
+
+/-- the values `cleanup` inserts are pool values. -/
+theorem cleanupSingles_vals (fb : List Sym) :
+    ∀ ixs : List Binder, noPsumBinders ixs = true →
+      ∀ p ∈ cleanupSingles fb ixs, noPsum p.2 = true ∧ ∀ s ∈ syms p.2, s ∈ symsBinders ixs
+  | [], _, p, hp => by simp [cleanupSingles, cleanupUsed] at hp
+  | (i, pool) :: rest, hn, p, hp => by
+      have hn' : noPsumList pool = true ∧ noPsumBinders rest = true := by simpa [noPsumBinders] using hn
+      have ih := cleanupSingles_vals fb rest hn'.2 p
+      unfold cleanupSingles cleanupUsed at ih hp
+      by_cases hu : fb.contains i = true
+      · simp only [List.filter_cons, hu, if_true, List.filterMap_cons] at hp
+        match pool, hn'.1, hp with
+        | [], _, hp =>
+          have := ih (by simpa using hp)
+          exact ⟨this.1, fun s hs => by simp only [symsBinders, List.mem_append]; exact Or.inr (this.2 s hs)⟩
+        | [a], hna, hp =>
+          simp only [List.mem_cons] at hp
+          rcases hp with hp | hp
+          · subst hp
+            refine ⟨by simpa [noPsumList] using hna, ?_⟩
+            intro s hs
+            simp only [symsBinders, symsList, List.mem_append]
+            exact Or.inl (Or.inl hs)
+          · have := ih hp
+            exact ⟨this.1, fun s hs => by simp only [symsBinders, List.mem_append]; exact Or.inr (this.2 s hs)⟩
+        | _ :: _ :: _, _, hp =>
+          have := ih (by simpa using hp)
+          exact ⟨this.1, fun s hs => by simp only [symsBinders, List.mem_append]; exact Or.inr (this.2 s hs)⟩
+      · simp only [List.filter_cons, hu, Bool.false_eq_true, if_false] at hp
+        have := ih hp
+        exact ⟨this.1, fun s hs => by simp only [symsBinders, List.mem_append]; exact Or.inr (this.2 s hs)⟩
 
 end Ampverif.Lemmas.C18
